@@ -125,7 +125,7 @@ def main():
         }],
         "checks": [],
         "not_applicable": [],
-        "notes": NOTES_PLACEHOLDER + "All claimed checks are level 'exploration' (seeded sampling of schedules and fault sequences; one VERIF_SEED decides workload, schedule and fault plan; violations come with a minimised replay file re-run twice in fresh interpreters, or with a block-prefix replay when the defect depends on state left by earlier calls). 22 genuine defects were found and repaired by 'fix:' commits in /repo; they are listed in known_findings.json as 'fixed:' entries whose reproducers run first in every check (no open finding remains, so no check prints KNOWN-FINDING on this tree). Self-tests: ./simcheck selftest determinism | sensitivity ({n_own} own mutants + {n_seeded} independent seeded changes under seeded/, {n_blind} of them a documented blind spot) | findings. DESIGN.md section 10 records what was built, the defects, the seeded changes and the mutation sweeps.",
+        "notes": NOTES_PLACEHOLDER + "All claimed checks are level 'exploration' (seeded sampling of schedules and fault sequences; one VERIF_SEED decides workload, schedule and fault plan; violations come with a minimised replay file re-run twice in fresh interpreters, or with a block-prefix replay when the defect depends on state left by earlier calls). 24 genuine defects were found and repaired by 'fix:' commits in /repo; they are listed in known_findings.json as 'fixed:' entries whose reproducers run first in every check (no open finding remains, so no check prints KNOWN-FINDING on this tree). Self-tests: ./simcheck selftest determinism | sensitivity ({n_own} own mutants + {n_seeded} independent seeded changes under seeded/, {n_blind} of them a documented blind spot) | findings. DESIGN.md section 10 records what was built, the defects, the seeded changes and the mutation sweeps.",
     }
     for k, v in (("{n_own}", n_own), ("{n_seeded}", n_seeded), ("{n_blind}", n_blind)):
         man["notes"] = man["notes"].replace(k, str(v))
